@@ -1,0 +1,134 @@
+//go:build verif
+
+// Contracts for the govc deductive verifier (see /verif/DESIGN.md). Compiled only under the build
+// tag "verif"; adds no behaviour to the package.
+package sml
+
+import "unsafe"
+
+// --- clause-language prelude (symbolic for the verifier, executable for replay tests) ---
+
+func zzOld[T any](x T) T   { return x }
+func zzImp(a, b bool) bool { return !a || b }
+
+type zzInt interface {
+	~int | ~int8 | ~int16 | ~int32 | ~int64 | ~uint | ~uint8 | ~uint16 | ~uint32 | ~uint64
+}
+
+func zzForall[T zzInt](f func(T) bool) bool {
+	for j := -2; j < 70000; j++ {
+		if T(j) < 0 != (j < 0) {
+			continue
+		}
+		if !f(T(j)) {
+			return false
+		}
+	}
+	return true
+}
+func zzResult[T any](i int) (zero T) { panic("spec only") }
+func zzIter() int                    { panic("spec only") }
+func zzFresh(x any) bool             { return true }
+
+// zzSameStr: the two strings are the same window of the same backing bytes (or both empty).
+func zzSameStr(a, b string) bool {
+	return len(a) == len(b) && (len(a) == 0 || unsafe.StringData(a) == unsafe.StringData(b))
+}
+
+// --- C14: parser scan state. data is always the unread suffix of input. ---
+
+func invParser(p *Parser) bool {
+	return p != nil && 0 <= p.pos && p.pos <= p.len && p.len == len(p.input) && zzSameStr(p.data, p.input[p.pos:])
+}
+
+//@ func (*Parser).initInput
+//@ requires p != nil
+//@ modifies p.input, p.data, p.len, p.pos
+//@ ensures [inv] invParser(p) && p.pos == 0 && p.input == input
+
+//@ func (*Parser).forward
+//@ requires invParser(p)
+//@ modifies p.data, p.pos
+//@ ensures [inv]  invParser(p)
+//@ ensures [move] result == (old(p.pos)+n <= p.len) && (result ==> p.pos == old(p.pos)+n) && (!result ==> p.pos == old(p.pos))
+
+//@ func (*Parser).backward
+//@ requires invParser(p) && n >= 0
+//@ modifies p.data, p.pos
+//@ ensures [inv]  invParser(p) && p.pos <= old(p.pos)
+
+//@ func (*Parser).skipSpace
+//@ requires invParser(p)
+//@ modifies p.data, p.pos
+//@ ensures [inv]  invParser(p) && p.pos >= old(p.pos)
+//@ ensures [some] result ==> len(p.data) > 0
+//@ loop 1 invariant [i] 0 <= i && i <= len(p.data) && invParser(p) && p.pos == old(p.pos)
+
+//@ func (*Parser).skipComment
+//@ requires invParser(p)
+//@ modifies p.data, p.pos
+//@ ensures [inv]  invParser(p) && p.pos >= old(p.pos)
+
+//@ func (*Parser).peekRune
+//@ requires invParser(p)
+//@ ensures [eof] (result == eof) == (len(p.data) == 0)
+
+//@ func (*Parser).peekNonSpaceRune
+//@ requires invParser(p)
+//@ modifies p.data, p.pos
+//@ ensures [inv]  invParser(p) && p.pos >= old(p.pos)
+//@ ensures [some] result != eof ==> len(p.data) > 0
+
+//@ func (*Parser).nextRune
+//@ requires invParser(p)
+//@ modifies p.data, p.pos
+//@ ensures [inv]  invParser(p) && p.pos >= old(p.pos) && p.pos <= old(p.pos)+1
+//@ ensures [adv]  result != eof ==> p.pos == old(p.pos)+1
+
+//@ func (*Parser).nextNonSpaceRune
+//@ requires invParser(p)
+//@ modifies p.data, p.pos
+//@ ensures [inv]  invParser(p) && p.pos >= old(p.pos)
+//@ ensures [adv]  result != eof ==> p.pos > old(p.pos)
+
+//@ func (*Parser).checkASCIICloseQuote
+//@ requires invParser(p) && 0 <= idx
+//@ ensures [pos] result0 ==> idx < result1 && result1 <= len(p.data)
+
+//@ func (*Parser).nextItemSize
+//@ requires invParser(p)
+//@ modifies p.data, p.pos
+//@ ensures [inv]   invParser(p) && p.pos >= old(p.pos)
+//@ ensures [range] result1 == nil ==> 0 <= result0 && result0 <= 2147483647
+
+//@ func (*Parser).nextCode
+//@ requires invParser(p)
+//@ modifies p.data, p.pos
+//@ ensures [inv]   invParser(p) && p.pos >= old(p.pos)
+
+//@ func (*Parser).getItemValueStrings
+//@ requires invParser(p)
+//@ modifies p.data, p.pos
+//@ ensures [inv]   invParser(p) && p.pos >= old(p.pos)
+//@ ensures [count] len(result) <= len(old(p.data)) + 1
+
+//@ func (*Parser).parseItemSize
+//@ requires invParser(p)
+//@ modifies p.data, p.pos
+//@ ensures [inv]   invParser(p)
+//@ ensures [range] err == nil ==> 0 <= minSize && minSize <= maxSize && maxSize <= 2147483647
+
+// --- error positions ---
+
+//@ func newParseError
+//@ requires 0 <= offset
+//@ ensures [offset] result != nil && 0 <= result.Offset && result.Offset <= len(input) && (offset <= len(input) ==> result.Offset == offset)
+//@ ensures [col]    1 <= result.Col && result.Col <= result.Offset+1
+//@ ensures [seg]    forall r :: result.Offset-(result.Col-1) <= r && r < result.Offset ==> input[r] != '\n'
+//@ ensures [start]  result.Col <= result.Offset ==> input[result.Offset-result.Col] == '\n'
+//@ ensures [line]   1 <= result.Line && result.Line <= result.Offset+1 && (result.Col == result.Offset+1 ==> result.Line == 1)
+//@ loop 1 invariant [i]     0 <= i && i <= offset && offset <= len(input)
+//@ loop 1 invariant [col]   1 <= col && col <= i+1
+//@ loop 1 invariant [seg]   forall r :: i-(col-1) <= r && r < i ==> input[r] != '\n'
+//@ loop 1 invariant [start] col <= i ==> input[i-col] == '\n'
+//@ loop 1 invariant [line]  1 <= line && line <= i+1 && (col == i+1 ==> line == 1)
